@@ -223,11 +223,13 @@ theorem single_out (A : E →ₗ[𝕜] E) (hA : A.IsSymmetric) (n maxIters : ℕ
 
 /-! ### several start vectors -/
 
-theorem batch_out (A : E →ₗ[𝕜] E) (hA : A.IsSymmetric) (n maxIters : ℕ) (vs : Array E) (tol : ℝ)
+/-- batched run, the clause read on the buffers: no `subdiag[c]`, `1 ≤ c < iters`, of any member's
+final buffers vanishes -/
+theorem batch_out_sb (A : E →ₗ[𝕜] E) (hA : A.IsSymmetric) (n maxIters : ℕ) (vs : Array E) (tol : ℝ)
     (hm : 1 ≤ min maxIters n) (hne : 0 < vs.size)
     (hv : ∀ (b : ℕ) (v : E), vs[b]? = some v → v ≠ 0)
-    (hoff : ∀ b c, b < vs.size → c + 1 < (lanczosExact A n vs maxIters tol).iters →
-      (lanczosExact A n vs maxIters tol).T b (c + 1) c ≠ 0) :
+    (hoff' : ∀ (b : ℕ) (s : Mem 𝕜 E), (lanczosExact A n vs maxIters tol).final.mems[b]? = some s →
+      ∀ c, 1 ≤ c → c < (lanczosExact A n vs maxIters tol).iters → sb s c ≠ 0) :
     1 ≤ (lanczosExact A n vs maxIters tol).iters ∧
     (lanczosExact A n vs maxIters tol).iters ≤ min maxIters n ∧
     (lanczosExact A n vs maxIters tol).info.iterations =
@@ -252,7 +254,6 @@ theorem batch_out (A : E →ₗ[𝕜] E) (hA : A.IsSymmetric) (n maxIters : ℕ)
       refine ⟨by omega, 0, by rw [iter_size]; exact hne, ?_⟩
       simp [isLarge]
     rw [this] at hk6; exact absurd hk6 (by simp)
-  -- read the clause on the buffers (sizes do not need the invariant)
   have hacc : ∀ b (s : Mem 𝕜 E), o.final.mems[b]? = some s →
       o.Q.getD b #[] = trimQ s k ∧ o.beta.getD b #[] = trimBeta s k ∧
         o.alpha.getD b #[] = trimAlpha s k := by
@@ -263,23 +264,6 @@ theorem batch_out (A : E →ₗ[𝕜] E) (hA : A.IsSymmetric) (n maxIters : ℕ)
     have e3 : o.alpha = o.final.mems.map (fun s => trimAlpha s o.iters) := rfl
     rw [e1, e2, e3, hk3]
     simp [Array.getD_eq_getD_getElem?, hb, hbs]
-  have hoff' : ∀ (b : ℕ) (s : Mem 𝕜 E), o.final.mems[b]? = some s →
-      ∀ c, 1 ≤ c → c < o.iters → sb s c ≠ 0 := by
-    intro b s hs c hc1 hck
-    obtain ⟨hb, _⟩ := Array.getElem?_eq_some_iff.mp hs
-    rw [hsz] at hb
-    rw [hk3] at hck
-    have h := hoff b (c - 1) hb (by rw [hk3]; omega)
-    have hcc : c - 1 + 1 = c := by omega
-    rw [hcc] at h
-    obtain ⟨_, hB, hAl⟩ := hacc b s hs
-    obtain ⟨_, g2, g3⟩ := iter_mem_sizes A m vs k b s (by rw [← hk2]; exact hs)
-    unfold Out.T at h
-    rw [hB, hAl, tridiagEntry_trim s m k c (c - 1) g2 g3 hk1 hck (by omega)] at h
-    have := triT_sub (fun c => dg s c) (fun c => sb s (c + 1)) (c - 1)
-    rw [hcc] at this
-    rw [this] at h
-    exact h
   obtain ⟨_, _, hit, hinv⟩ := lanczos_batch A hA n maxIters vs tol hv hoff'
   rw [hk3] at hinv
   refine ⟨by rw [hk3]; exact hk1', by rw [hk3]; exact hk1, hit, ?_⟩
@@ -310,6 +294,48 @@ theorem batch_out (A : E →ₗ[𝕜] E) (hA : A.IsSymmetric) (n maxIters : ℕ)
   refine ⟨?_, ?_⟩
   · rw [hQ]; exact size_trimQ s m k hi.sizeV hk1
   · rw [hres]; exact hspec
+
+theorem batch_out (A : E →ₗ[𝕜] E) (hA : A.IsSymmetric) (n maxIters : ℕ) (vs : Array E) (tol : ℝ)
+    (hm : 1 ≤ min maxIters n) (hne : 0 < vs.size)
+    (hv : ∀ (b : ℕ) (v : E), vs[b]? = some v → v ≠ 0)
+    (hoff : ∀ b c, b < vs.size → c + 1 < (lanczosExact A n vs maxIters tol).iters →
+      (lanczosExact A n vs maxIters tol).T b (c + 1) c ≠ 0) :
+    1 ≤ (lanczosExact A n vs maxIters tol).iters ∧
+    (lanczosExact A n vs maxIters tol).iters ≤ min maxIters n ∧
+    (lanczosExact A n vs maxIters tol).info.iterations =
+      (lanczosExact A n vs maxIters tol).iters + 1 ∧
+    ∀ b, b < vs.size →
+      ((lanczosExact A n vs maxIters tol).Q.getD b #[]).size =
+        (lanczosExact A n vs maxIters tol).iters ∧
+      OutSpec A (vs.getD b 0) (lanczosExact A n vs maxIters tol).iters
+        ((lanczosExact A n vs maxIters tol).q b) ((lanczosExact A n vs maxIters tol).T b)
+        ((lanczosExact A n vs maxIters tol).resid A b) := by
+  apply batch_out_sb A hA n maxIters vs tol hm hne hv
+  obtain ⟨k, hk1, hk2, hk3, hk4, hk5, hk6⟩ := lanczos_run A n vs maxIters tol
+  set o := lanczosExact A n vs maxIters tol with ho
+  set m := min maxIters n
+  have hsz : o.final.mems.size = vs.size := by rw [hk2, iter_size]
+  have hk1' : 1 ≤ k ∨ k = 0 := by omega
+  intro b s hs c hc1 hck
+  obtain ⟨hb, hbs⟩ := Array.getElem?_eq_some_iff.mp hs
+  have hb' : b < vs.size := by rw [hsz] at hb; exact hb
+  rw [hk3] at hck
+  have h := hoff b (c - 1) hb' (by rw [hk3]; omega)
+  have hcc : c - 1 + 1 = c := by omega
+  rw [hcc] at h
+  have e2 : o.beta = o.final.mems.map (fun s => trimBeta s o.iters) := rfl
+  have e3 : o.alpha = o.final.mems.map (fun s => trimAlpha s o.iters) := rfl
+  have hB : o.beta.getD b #[] = trimBeta s k := by
+    rw [e2, hk3]; simp [Array.getD_eq_getD_getElem?, hb, hbs]
+  have hAl : o.alpha.getD b #[] = trimAlpha s k := by
+    rw [e3, hk3]; simp [Array.getD_eq_getD_getElem?, hb, hbs]
+  obtain ⟨_, g2, g3⟩ := iter_mem_sizes A m vs k b s (by rw [← hk2]; exact hs)
+  unfold Out.T at h
+  rw [hB, hAl, tridiagEntry_trim s m k c (c - 1) g2 g3 hk1 hck (by omega)] at h
+  have := triT_sub (fun c => dg s c) (fun c => sb s (c + 1)) (c - 1)
+  rw [hcc] at this
+  rw [this] at h
+  exact h
 
 /-! ### `lanczos_eigs` -/
 
